@@ -41,7 +41,7 @@ func H_nodeset() {
 		defer func() {
 			if r := recover(); r != nil {
 				cls = vClassifyPanic(r)
-				vObserve("panic", vPanicText(r))
+				vNote("panic", vPanicText(r))
 			}
 		}()
 		it := e.Select(navAt(doc, cur, attr))
